@@ -1,5 +1,7 @@
 import OjgVerif.Writer.LemmasParse
 import OjgVerif.Writer.LemmasPretty
+import OjgVerif.Gen.WriterDispatch
+import OjgVerif.Writer.StrLoop
 /-! # C04 — JSON writers emit valid JSON that denotes the data written
 
 Re-checked on every run against the regenerated constants (`Gen.Root.jMap`, `Gen.Root.hex`,
@@ -53,6 +55,50 @@ theorem C04_string (s : Bytes) (html : Bool) :
   simp only [appendJSONString, List.nil_append]
   rw [hj] at h ⊢
   exact parseDoc_of_pValue 34 _ _ (by decide) (by decide) h
+
+/-- THE LOOP AS WRITTEN: the transcription of the Go loop of `AppendJSONString` with its `start` /
+`skip` indices (`Writer/StrLoop.lean`: a buffer, runs copied by `append(buf, s[start:i]...)` before
+every escape and `s[start:]` after the loop, `continue` while `i < skip`) gives, for every buffer,
+byte string and HTML-safe setting, byte for byte the text of the per-byte model -/
+theorem C04_string_loop (buf s : Bytes) (html : Bool) :
+    appendJSONStringReal buf s html = appendJSONString buf s html :=
+  appendJSONStringReal_eq buf s html
+
+/-- the loop `Writer/StrLoop.lean` transcribes, statement by statement (`loopStep`: `head` and the
+cases; `realLoop`: `range`; `appendJSONStringRealT` / `finishLoop`: `pre` and `post`) -/
+def appendJSONStringLoopTranscribed : List (String × List String) := [
+  ("pre", ["buf = append(buf, '\"')", "start := 0", "skip := 0"]),
+  ("range", ["i, b := range []byte(s)"]),
+  ("head", ["if i < skip", "continue", "end", "c := jMap[b]"]),
+  ("switch", ["c"]),
+  ("'o'", ["continue"]),
+  ("'.'", ["if start < i", "buf = append(buf, s[start:i]...)", "end", "buf = append(buf, `\\u00`...)", "buf = append(buf, hex[(b>>4)&0x0f])", "buf = append(buf, hex[b&0x0f])", "start = i + 1"]),
+  ("'h'", ["if htmlSafe", "if start < i", "buf = append(buf, s[start:i]...)", "end", "buf = append(buf, `\\u00`...)", "buf = append(buf, hex[(b>>4)&0x0f])", "buf = append(buf, hex[b&0x0f])", "start = i + 1", "end"]),
+  ("'8'", ["r, cnt := utf8.DecodeRuneInString(s[i:])", "switch r"]),
+  ("'8'/'\\u2028'", ["if start < i", "buf = append(buf, s[start:i]...)", "end", "buf = append(buf, `\\u2028`...)", "start = i + cnt", "skip = start"]),
+  ("'8'/'\\u2029'", ["if start < i", "buf = append(buf, s[start:i]...)", "end", "buf = append(buf, `\\u2029`...)", "start = i + cnt", "skip = start"]),
+  ("'8'/utf8.RuneError", ["if start < i", "buf = append(buf, s[start:i]...)", "end", "buf = append(buf, `\\ufffd`...)", "start = i + cnt", "skip = start"]),
+  ("'8'/default", ["skip = i + cnt"]),
+  ("default", ["if start < i", "buf = append(buf, s[start:i]...)", "end", "buf = append(buf, '\\\\')", "buf = append(buf, c)", "start = i + 1"]),
+  ("post", ["if start < len(s)", "buf = append(buf, s[start:]...)", "end", "return append(buf, '\"')"])
+]
+
+/-- … and it is the loop of the CURRENT source: the statements of `ojg.AppendJSONString` read from
+string.go on this run (Gen/WriterDispatch.lean) are, place by place, the ones transcribed — any edit of
+the loop (an index expression, a `start` / `skip` assignment, a case added or dropped) breaks this
+obligation by name until `StrLoop.lean` is transcribed again -/
+theorem C04_string_loop_shape :
+    Gen.WriterDispatch.appendJSONStringLoop = appendJSONStringLoopTranscribed := by decide +kernel
+
+/-- … and so the loop as written emits one JSON text whose value is the sanitised string -/
+theorem C04_string_real (s : Bytes) (html : Bool) :
+    Spec.parseDoc (appendJSONStringReal [] s html) = .one (.str (sanitize s)) := by
+  rw [C04_string_loop]; exact C04_string s html
+
+/-- `"a\u2028\xffb<"`: an ordinary byte, a dropped 3-byte sequence, an ill-formed byte, a run, an HTML byte -/
+example : appendJSONStringReal [1] [97, 0xE2, 0x80, 0xA8, 0xFF, 98, 60] true
+    = [1, 34, 97, 92, 117, 50, 48, 50, 56, 92, 117, 102, 102, 102, 100, 98, 92, 117, 48, 48, 51, 99, 34] := by
+  decide +kernel
 
 /-! ## integers -/
 
@@ -313,5 +359,129 @@ example : distinctKeys (.obj [([98], .int 1), ([97, 255], .null), ([97, 254], .o
 example : ¬ okW (.obj [([255], .int 1), ([254], .int 2)]) := by
   simp only [okW, okKvs, and_true]
   decide
+
+/-! ## unsigned integers -/
+
+/-- unsigned round trip (uint8 … uint64, uint): the literal printed for an unsigned value `n`
+(any `n`, in particular `2^63 ≤ n < 2^64`) is an RFC 8259 number WITHOUT a minus sign whose value
+is `n` — the instance of `C04_int` at the non-negative integers, plus the sign -/
+theorem C04_uint (n : Nat) :
+    isNumLit (fmtInt (n : Int)) ∧ intVal (fmtInt (n : Int)) = (n : Int) ∧ (fmtInt (n : Int)).head? ≠ some 45 := by
+  refine ⟨isNumLit_fmtInt _, intVal_fmtInt _, ?_⟩
+  obtain ⟨d, ds, he, hd⟩ := fmtNat_head_ne_minus n
+  have hf : fmtInt (n : Int) = fmtNat n := by
+    unfold fmtInt
+    rw [if_neg (by omega)]
+    simp
+  rw [hf, he]
+  simpa using hd
+
+example : (2:Nat)^63 < 2^64 ∧ fmtInt ((2^64 - 1 : Nat) : Int) = "18446744073709551615".toUTF8.toList := by decide +kernel
+
+/-! ## dispatch: every leaf kind of the model has its arm in the source -/
+
+/-- the calls of the arm of Go type `ty` in a generated arm table -/
+def armOf (tbl : List (String × List String)) (ty : String) : Option (List String) :=
+  (tbl.find? fun e => e.1 == ty).map (·.2)
+
+/-- the Go types the harness builds for a leaf / container kind of the model (simple and gen flavour) -/
+def goTypesOf : JV → List String
+  | .null => ["nil"]
+  | .bool _ => ["bool", "gen.Bool"]
+  | .int _ => ["int", "int8", "int16", "int32", "int64", "uint", "uint8", "uint16", "uint32", "uint64", "gen.Int"]
+  | .flt _ => ["float64", "gen.Float"]
+  | .str _ => ["string", "gen.String"]
+  | .arr _ => ["[]any", "gen.Array"]
+  | .obj _ => ["map[string]any", "gen.Object"]
+  | .big _ => []
+  | .num _ => []
+
+/-- what the arm of (*pretty.Writer).build for a Go type has to call for the model
+(`Writer/Pretty.lean`, `build`) to be a transcription of it: signed integers and unsigned ones of at
+most 32 bits widen into `int64` (exact) and go through `buildInt` (= `fmtInt`), `uint` and `uint64`
+go through `buildUint` unconverted, a `float64` / `gen.Float` through the 64-bit float builder -/
+def prettyCallOf (ty : String) : List String :=
+  if ty == "nil" then ["w.buildNull()"]
+  else if ty == "bool" then ["w.buildBool(td)"]
+  else if ty == "gen.Bool" then ["w.buildBool(bool(td))"]
+  else if ty == "int64" then ["w.buildInt(td)"]
+  else if ty == "uint64" then ["w.buildUint(td)"]
+  else if ty == "uint" then ["w.buildUint(uint64(td))"]
+  else if ty == "float64" then ["w.buildFloat64(td)"]
+  else if ty == "gen.Float" then ["w.buildFloat64(float64(td))"]
+  else if ty == "string" then ["w.buildStringNode(td)"]
+  else if ty == "gen.String" then ["w.buildStringNode(string(td))"]
+  else if ty == "[]any" then ["w.buildArrayNode(td)"]
+  else if ty == "gen.Array" then ["w.buildGenArrayNode(td)"]
+  else if ty == "map[string]any" then ["w.buildMapNode(td)"]
+  else if ty == "gen.Object" then ["w.buildGenMapNode(td)"]
+  else ["w.buildInt(int64(td))"]
+
+/-- every leaf and container kind of the model has, for every Go type the harness builds for it, its
+arm in the type switch of (*pretty.Writer).build of the CURRENT source calling exactly the expected
+builder (a leaf kind routed through another builder — `gen.Float` through `buildFloat32`, `uint64`
+through `buildInt(int64(…))` — breaks this obligation by name) -/
+theorem C04_dispatch_pretty (v : JV) :
+    ∀ ty ∈ goTypesOf v, armOf Gen.WriterDispatch.prettyBuild ty = some (prettyCallOf ty) := by
+  cases v <;> simp only [goTypesOf] <;> decide +kernel
+
+/-- tripwire for fix cb0e5e8: neither the `uint` nor the `uint64` arm of build converts to `int64`
+and calls `buildInt` (which wrote every value of 2^63 or more as a negative number) -/
+theorem C04_pretty_uint_tripwire : Gen.WriterDispatch.prettyUintViaInt64 = false := by decide
+
+/-- does the generated entry `name` list the call `call`? -/
+def hasCall (tbl : List (String × List String)) (name call : String) : Bool :=
+  match armOf tbl name with
+  | some l => l.contains call
+  | none => false
+
+/-- the leaf builders format the way the model does: `buildInt` by `strconv.FormatInt(v, 10)` and
+`buildUint` by `strconv.FormatUint(v, 10)` (`fmtInt`), `buildFloat64` by the shortest 64-bit 'g'
+form (the `.flt` literal), `buildStringNode` by `ojg.AppendJSONString` with `!w.HTMLUnsafe`
+(`jsonString`), `buildNull` / `buildBool` from the constants -/
+theorem C04_pretty_builders :
+    hasCall Gen.WriterDispatch.prettyBuilders "buildInt" "[]byte(strconv.FormatInt(v, 10))" = true ∧
+    hasCall Gen.WriterDispatch.prettyBuilders "buildUint" "[]byte(strconv.FormatUint(v, 10))" = true ∧
+    hasCall Gen.WriterDispatch.prettyBuilders "buildFloat64" "[]byte(strconv.FormatFloat(v, 'g', -1, 64))" = true ∧
+    hasCall Gen.WriterDispatch.prettyBuilders "buildStringNode" "ojg.AppendJSONString(w.buf, v, !w.HTMLUnsafe)" = true ∧
+    hasCall Gen.WriterDispatch.prettyBuilders "buildNull" "[]byte(nullStr)" = true ∧
+    hasCall Gen.WriterDispatch.prettyBuilders "buildBool" "[]byte(trueStr)" = true ∧
+    hasCall Gen.WriterDispatch.prettyBuilders "buildBool" "[]byte(falseStr)" = true := by
+  decide +kernel
+
+/-- the arm of (*oj.Writer).appendJSON a Go type reaches: the gen types have no arm of their own and
+reach the writer through `alt.Simplifier` (Simplify gives the simple value of the same kind) -/
+def ojArmTypeOf (ty : String) : String := if ty.startsWith "gen." then "alt.Simplifier" else ty
+
+/-- what that arm has to call for the model (`Writer/OjModel.lean`) to be a transcription of it:
+signed integers through `strconv.AppendInt` of the value widened to `int64`, unsigned ones through
+`strconv.AppendUint` of the value widened to `uint64` (both exact: `fmtInt`), `float64` through the
+shortest 64-bit 'g' form, strings through `appendString` with `!wr.HTMLUnsafe`, containers through
+the configured `appendArray` / `appendObject` (tight, indented, sorted) -/
+def ojCallOf (ty : String) : List String :=
+  if ty.startsWith "gen." then ["wr.appendJSON(td.Simplify(), depth)"]
+  else if ty == "nil" then ["append(wr.buf, \"null\"...)"]
+  else if ty == "bool" then ["append(wr.buf, \"true\"...)", "append(wr.buf, \"false\"...)"]
+  else if ty == "int64" then ["strconv.AppendInt(wr.buf, td, 10)"]
+  else if ty == "uint64" then ["strconv.AppendUint(wr.buf, td, 10)"]
+  else if ty.startsWith "uint" then ["strconv.AppendUint(wr.buf, uint64(td), 10)"]
+  else if ty.startsWith "int" then ["strconv.AppendInt(wr.buf, int64(td), 10)"]
+  else if ty == "float64" then
+    ["len(wr.FloatFormat)", "fmt.Appendf(wr.buf, wr.FloatFormat, td)", "strconv.AppendFloat(wr.buf, td, 'g', -1, 64)"]
+  else if ty == "string" then ["wr.appendString(wr.buf, td, !wr.HTMLUnsafe)"]
+  else if ty == "[]any" then ["append(wr.buf, \"null\"...)", "wr.appendArray(wr, td, depth)"]
+  else if ty == "map[string]any" then ["wr.appendObject(wr, td, depth)"]
+  else []
+
+/-- every leaf and container kind of the model has, for every Go type the harness builds for it, its
+arm in the type switch of (*oj.Writer).appendJSON of the CURRENT source calling exactly the expected
+functions; a gen type has no concrete arm (none shadows the `alt.Simplifier` arm) -/
+theorem C04_dispatch_oj (v : JV) :
+    ∀ ty ∈ goTypesOf v, armOf Gen.WriterDispatch.ojAppendJSON (ojArmTypeOf ty) = some (ojCallOf ty) ∧
+      (ty.startsWith "gen." = true → armOf Gen.WriterDispatch.ojAppendJSON ty = none) := by
+  cases v <;> simp only [goTypesOf] <;> decide +kernel
+
+/-- the statements range over something: an integer leaf has eleven Go types, none missing -/
+example : (goTypesOf (.int 5)).length = 11 ∧ goTypesOf (.flt []) = ["float64", "gen.Float"] := by decide
 
 end OjgVerif.C04
